@@ -32,6 +32,7 @@ def run(ctx):
     ctx.count(len(recs), [hash(str(r["chunks"])) for r in recs if sum(len(c["bytes"]) for c in r["chunks"]) >= 4],
               [{"lvl": r["lvl"], "cap": r["cap"], "chunks": r["chunks"][:4], "feat": r["feat"]} for r in recs[:3]])
     ctx.report(fails, live.confirm_factory(ctx))
+    live.finish(ctx)
 
 
 replay = live.replay
